@@ -8,6 +8,8 @@ import Gojq.Proofs.MiniVMRefineCall
 import Gojq.Proofs.MiniVMRefineTry
 import Gojq.Proofs.MiniVMRefineCond
 import Gojq.Proofs.MiniVMRefineVar
+import Gojq.Proofs.MiniVMRefineLoop
+import Gojq.Proofs.MiniVMRefineForeach
 namespace Gojq.MiniVM
 variable [IterMsg]
 set_option linter.unusedSectionVars false
@@ -45,6 +47,8 @@ theorem compile_yields {code defs entry nf} (hfun : FuncsOK code defs entry nf) 
       | alt l r => exact cy_alt hfun ihn l r
       | var x => exact cy_var hfun ihn x
       | bind x s b => exact cy_bind hfun ihn x s b
+      | reduce x src init upd => exact cy_reduce hfun ihn x src init upd
+      | foreach x src init upd ext => exact cy_foreach hfun ihn x src init upd ext
   exact key
 
 
@@ -70,6 +74,8 @@ theorem compile_length (entry : Name → Nat) : ∀ (q : Q) (g : Ctx) (e p : Nat
   | alt l r ihl ihr => intro g e p; simp [compile, Q.size, ihl, ihr]; omega
   | var x => intros; rfl
   | bind x s b ihs ihb => intro g e p; simp [compile, Q.size, ihs, ihb]; omega
+  | reduce x src init upd i1 i2 i3 => intro g e p; simp [compile, Q.size, i1, i2, i3]; omega
+  | foreach x src init upd ext i1 i2 i3 i4 => intro g e p; simp [compile, Q.size, i1, i2, i3, i4]; omega
 
 theorem Seg.mid (A B C : List Instr) : Seg (A ++ B ++ C) A.length B := by
   intro i hi
